@@ -3,7 +3,7 @@ from mirlib import *
 from paths import *
 from shape import *
 from ranges import *
-import r_decclass, r_state
+import r_decclass, r_state, r_inv
 from p_c07 import self_writes, transitive_reads
 
 MANIFEST = {
@@ -522,4 +522,5 @@ def run(rep, facts, tier):
         d3_exact(rep, f, c)
         d4(rep, f, c)
         d5(rep, f, c)
+        r_inv.escape_reset(rep, f, c, 'R-INV')
     return ('other', MANIFEST['text'], [])
